@@ -605,6 +605,19 @@ func (v *Voter) processVoteMsg(ev VoteMsgEvent, status MsgReceivedStatus) (error
 		return nil, false
 
 	case addrDifferentVote:
+		// the sender's weight has just been taken away from the block it voted for first: if that block no longer has
+		// the quorum of this kind, forget that it once had it (the latched status is what a later commit relies on)
+		if status == msgSame && voteInfoData != nil {
+			if vs := v.voteOver[voteInfoData.Hash]; vs != nil && vs.status(voteType, validatorType) {
+				if _, cnt := wrapper.getVotes(voteType, voteInfoData.Hash, validatorType); !OverThreshold(cnt, threshold, voteType != Certificate) {
+					if validatorType == params.KindChamber {
+						vs.chamber[voteType] = false
+					} else if validatorType == params.KindHouse {
+						vs.house[voteType] = false
+					}
+				}
+			}
+		}
 		if voteInfoData == nil || voteType == NextIndex {
 			return nil, false
 		}
